@@ -88,6 +88,7 @@ pub struct Report {
     pub hist: BTreeMap<String, u64>,
     pub samples: BTreeMap<u64, J>,
     pub viols: BTreeMap<String, Viol>,
+    pub known: BTreeMap<String, Viol>,
     pub viol_total: u64,
     pub capped: bool,
     pub states: u64,
@@ -118,6 +119,14 @@ impl Report {
     /// smallest PER_CLASS keys of every class are kept (deterministic under sharding).
     pub fn violation(&mut self, key: String, what: String, case: J) {
         self.viol_total += 1;
+        // violations listed as known findings (by key prefix) are counted and exemplified once per
+        // prefix, so that a flood of them cannot crowd other violations out of the capped list
+        if let Some(px) = known_prefixes().iter().find(|p| key.starts_with(p.as_str())) {
+            *self.hist.entry(format!("known-finding:{px}")).or_insert(0) += 1;
+            let e = self.known.entry(px.clone()).or_insert_with(|| Viol { key: key.clone(), what: what.clone(), case: case.clone() });
+            if key < e.key { *e = Viol { key, what, case }; }
+            return;
+        }
         let class = key.split('|').next().unwrap_or("").to_string();
         *self.hist.entry(format!("violations:{class}")).or_insert(0) += 1;
         self.insert_viol(Viol { key, what, case });
@@ -151,6 +160,7 @@ impl Report {
         for (k, v) in o.samples { self.sample(k, || v); }
         self.viol_total += o.viol_total;
         for (_, v) in o.viols { self.insert_viol(v); }
+        for (k, v) in o.known { let e = self.known.entry(k).or_insert_with(|| v.clone()); if v.key < e.key { *e = v; } }
         for (k, v) in o.extra { self.set(&k, v); }
     }
 
@@ -161,7 +171,7 @@ impl Report {
         let rdir = format!("{}/replays/{}", cfg.out_dir, cfg.prop);
         let _ = std::fs::create_dir_all(&rdir);
         let mut vlist = vec![];
-        for v in self.viols.values() {
+        for v in self.viols.values().chain(self.known.values()) {
             let fname = format!("{}/{}-{:016x}.json", rdir, cfg.part.replace(' ', "_"), fnv(&v.key));
             let body = obj! {
                 "property" => cfg.prop.as_str(),
@@ -214,6 +224,11 @@ impl Report {
         );
         std::process::exit(0)
     }
+}
+
+pub fn known_prefixes() -> &'static Vec<String> {
+    static K: std::sync::OnceLock<Vec<String>> = std::sync::OnceLock::new();
+    K.get_or_init(|| std::env::var("VERIF_KNOWN_PREFIXES").map(|s| s.split('\u{1f}').filter(|p| !p.is_empty()).map(String::from).collect()).unwrap_or_default())
 }
 
 pub fn fnv(s: &str) -> u64 {
